@@ -32,6 +32,7 @@ fn main() {
         ("drive", "dates") => props::dates::drive(&args),
         ("replay", "xlsx_tables") => props::xlsx_tables::replay(&args),
         ("drive", "xlsx_tables") => props::xlsx_tables::drive(&args),
+        ("replay", "api") => props::api::replay(&args),
         ("replay", "de") => props::de::replay(&args),
         ("drive", "de") => props::de::drive(&args),
         ("replay", "cfb") => isolate::run_replay(&args, props::cfb::replay),
